@@ -37,7 +37,8 @@ def viols_to_ctx(ctx, viols, trace_path, prefix, key=None):
         e = events[v["l"] - 1]
         for clause in v["clause"]:
             extra = key(e) if key else ""
-            ctx.violation("%s:%s%s" % (prefix, clause, (":" + extra) if extra else ""),
+            name = clause if clause.startswith(prefix + ":") else prefix + ":" + clause
+            ctx.violation("%s%s" % (name, (":" + extra) if extra else ""),
                           "event #%d: %s" % (v["l"], json.dumps(e)[:700]), e)
 
 
@@ -345,3 +346,35 @@ def c16(ctx):
                   "four inverse entry points (round trip); plus random real couplings (scaling in [-2,2]) behind and in front of "
                   "tools as Solver trace events (clause Coupled)",
                   assumptions=SOLVER_ASSUME)
+
+
+# ----------------------------------------------------------------------------- C15
+@check("C15")
+def c15(ctx):
+    consts = {"PSets": "{1, 2, 4}", "Angles": "{0, 1, 3, 10}"} if ctx.quick else {"PSets": "{1, 2, 3, 4, 5}", "Angles": "{0, 1, 3, 5, 10}"}
+    g = tlc(ctx, "Gen_Jacobian", constants=consts, workers=8, xmx="12g")
+    lines = tlc_json_lines(g["out"], "jac")
+    if not lines:
+        raise core.ToolError("Gen_Jacobian printed nothing")
+    write_ndjson(ctx.path("jac.ndjson"), lines)
+    opwv(ctx, ["replay", "jac", ctx.path("jac.ndjson"), ctx.path("jac.out")])
+    st = replay_results(ctx, ctx.path("jac.out"), "C15")
+    ctx.evaluations += st.get("evaluations", 0)
+    ctx.traces += len(lines)
+    for ln in lines:
+        ctx.nontrivial.add((json.dumps(ln["p"], sort_keys=True), tuple(ln["e"])))
+    opwv(ctx, ["record", "jac", ctx.path("jac.trace")])
+    viols, done = trace_validate(ctx, "Trace_Jacobian", ctx.path("jac.trace"))
+    viols_to_ctx(ctx, viols, ctx.path("jac.trace"), "C15", key=lambda e: "")
+    ev = read_ndjson(ctx.path("jac.trace"))
+    ctx.evaluations += len(ev)
+    ctx.extra["well_conditioned_events"] = sum(1 for e in ev if e.get("cond", 1 << 40) < 10000)
+    ctx.sample({k: v for k, v in ev[0].items() if k != "params"})
+    ctx.exhaustive = True
+    return finish(ctx, rule="every lattice chain with 1..3 generic joints over Angles^6 x PSets with the exact geometric Jacobian "
+                  "columns computed by TLC (Gen_Jacobian) replayed into Jacobian::new for eps in {1e-7,1e-6,1e-5} under plain "
+                  "and signed/offset conventions (tolerance 20*eps*(1+reach)); plus random robots behind tool/base/frame stacks "
+                  "judged by Trace_Jacobian (columns, torques = J^T w, velocities reproduce the twist when cond < 1e4, entry "
+                  "points agree)",
+                  assumptions=["the private matrix is observed through torques_from_vector(unit vectors)",
+                               "allowed error 20*eps*(1+reach): second-order term of the forward difference"])
